@@ -14,7 +14,8 @@ PROPERTY = "C09"
 RULE = (
     "Hypothesis documents with a drawn set of explicit targets of 9 kinds ('(name)=' before a paragraph / before a "
     "heading, '{#id}' on a paragraph / heading / inline span, directive :name: on a note / a titled admonition / a "
-    "captioned figure, labelled math block), headings with duplicate and suffix-colliding titles under heading_anchors "
+    "captioned figure, labelled math block, and untitled named containers - note, list, block quote - that contain a titled "
+    "element), headings with duplicate and suffix-colliding titles under heading_anchors "
     "0-4, and '#' links in four spellings ('[t](#x)', '[](#x)', '<project:#x>', '[t](<#x>)') to existing explicit "
     "names, to heading slugs, to names that are both (explicit must win), to headings deeper than the anchor depth, to "
     "missing and case-variant names; targets and links are placed at top level, in block quotes, list items, "
@@ -35,7 +36,8 @@ ASSUMPTIONS = [
 FLOOR = {"quick": 300, "thorough": 6000}
 
 EXTS = ["attrs_block", "attrs_inline", "colon_fence", "dollarmath", "deflist"]
-TARGET_KINDS = ["tgt_para", "tgt_head", "attr_para", "attr_span", "attr_head", "dir_note", "dir_admon", "dir_figure", "math"]
+TARGET_KINDS = ["tgt_para", "tgt_head", "attr_para", "attr_span", "attr_head", "dir_note", "dir_admon", "dir_figure", "math",
+                "dir_note_nested", "tgt_list_nested", "attr_quote_nested"]
 NAMES = ["alpha", "beta-gamma", "t1", "x-y-z", "note1", "alpha-1", "delta", "fig-a", "eq1", "zeta"]
 TITLES = ["Alpha", "alpha", "Beta gamma", "Alpha 1", "Delta", "Other title"]
 WRAPS = [None, None, None, "quote", "list", "note"]
@@ -128,6 +130,16 @@ def build(case):
             elif kind == "dir_note":
                 lines = ["```{note}", f":name: {name}", f"{mk} body", "```"]
                 tag = "note"
+            elif kind == "dir_note_nested":
+                # an untitled named container that *contains* a titled element: the link text is still '#name'
+                lines = ["````{note}", f":name: {name}", f"{mk} body", "", "```{admonition} Inner title", "inner", "```", "````"]
+                tag = "note"
+            elif kind == "tgt_list_nested":
+                lines = [f"({name})=", f"- {mk} item", "", "  ```{admonition} Inner title", "  inner", "  ```"]
+                tag = "bullet_list"
+            elif kind == "attr_quote_nested":
+                lines = ["{#" + name + "}", f"> {mk} quote", ">", "> ```{figure} img.png", ">", "> Inner caption", "> ```"]
+                tag = "block_quote"
             elif kind == "dir_admon":
                 lines = [f"```{{admonition}} {mk} title", f":name: {name}", "body", "```"]
                 tag, title = "admonition", f"{mk} title"
@@ -151,6 +163,8 @@ def build(case):
                     taken.append(slug)
                     h["slug"] = slug
                 w = None
+            elif kind.endswith("_nested"):
+                w = None     # (already containers themselves: kept at top level so the marked node is unambiguous)
             else:
                 w = b.get("wrap")
             targets.setdefault(name, []).append({"marker": mk, "kind": kind, "tag": tag, "title": title})
